@@ -43,6 +43,7 @@ type NativeRunner struct {
 	mu            sync.Mutex
 	counter       int
 	race          bool
+	files         map[string]string // harness file name → real path (nil: every .go file of the harness directory)
 }
 
 func NewNativeRunner(repo, harness string) *NativeRunner {
@@ -67,9 +68,12 @@ func (nr *NativeRunner) build() {
 		switch {
 		case strings.HasSuffix(n, "_test.go.txt"):
 			repl[filepath.Join(nr.repo, "zz_verif_"+strings.TrimSuffix(n, ".txt"))] = filepath.Join(nr.harness, n)
-		case strings.HasSuffix(n, ".go"):
+		case strings.HasSuffix(n, ".go") && nr.files == nil:
 			repl[filepath.Join(nr.repo, "zz_verif_"+n)] = filepath.Join(nr.harness, n)
 		}
+	}
+	for n, p := range nr.files {
+		repl[filepath.Join(nr.repo, "zz_verif_"+n)] = p
 	}
 	ov, _ := json.Marshal(map[string]interface{}{"Replace": repl})
 	ovPath := filepath.Join(dir, "overlay.json")
